@@ -583,7 +583,11 @@ def corpus_sets():
     sets.append({"kind": "enum", "enum": {"title": None, "cmds": [
         {"variant": "Help", "name": None, "doc": "Own help", "sub": None, "args": [arg("topic", "pos", "str", optional=True, doc="Topic")]},
         unit("Hello", doc="Say hello"),
-        {"variant": "Run", "name": None, "doc": None, "sub": None, "args": [arg("hard", "flag", "bool", long=True, short=True), arg("what")]}]}})
+        {"variant": "Run", "name": None, "doc": None, "sub": None, "args": [arg("hard", "flag", "bool", long=True, short=True), arg("what")]},
+        # labels of very different widths in one table (the padding of the short ones is more than 30 columns)
+        {"variant": "Calibrate", "name": None, "doc": "Calibrate", "sub": None, "args": [
+            arg("calibration_profile_name", "opt", "str", long=True, optional=True, doc="Profile"), arg("x", "flag", "bool", short=True, doc="X"),
+            arg("a_rather_long_positional_argument_name", "pos", "u8", doc="Long one"), arg("b", "pos", "str", optional=True, doc="Short one")]}]}})
     # 19: signed positionals of every width (a negative value can only be given after `--`): both ends of every range
     sets.append({"kind": "enum", "enum": {"title": None, "cmds": [
         {"variant": "Move", "name": None, "doc": "Move", "sub": None, "args": [arg("step", "pos", "i8"), arg("fine", "pos", "i16", optional=True), arg("fast", "flag", "bool", long=True)]},
@@ -596,7 +600,9 @@ VARIANTS = ["Get", "GetLed", "GetAdc", "Set", "SetLed", "Go", "Status", "Stat", 
 FIELDS = ["name", "level", "verbose", "file", "value", "item", "count", "mode", "ch", "flag_x", "out_file", "k", "host", "hex", "help_me",
           # identifiers where the generated names are not a plain copy: trailing / doubled / leading underscore, non-ASCII letters
           # (the default value name is the field upper-cased by Unicode rules: straße -> STRASSE)
-          "type_", "dry__run", "_x", "größe", "длина", "straße"]
+          "type_", "dry__run", "_x", "größe", "длина", "straße",
+          # a long identifier: the option label `--calibration-profile-name <CALIBRATION_PROFILE_NAME>` is far wider than `-h, --help`
+          "calibration_profile_name"]
 DOCS = [None, None, "Do something", "Short text.", "Two sentences. Here..", "First paragraph\nstill first\n\nSecond paragraph.", "Trailing dots..",
         "One.\n\n\nTwo after two blank lines.", "A\n  \n\n \nB\nb\n\nC..", "\nLeading blank", "Trailing blanks\n\n",
         # the other Unicode White_Space characters (str::trim strips them, a line made of them is blank)
